@@ -4,7 +4,7 @@ EXPLANATION = ('cbmc over the real soxr_create / soxr_set_io_ratio / initialise 
                '(doubles over their whole range except NaN, datatypes and flags any bits, runtime spec any values, SOXR_* overrides any '
                'subset/any value) over the abstract engine: NULL handle iff error string; spec-carried errors, datatypes > 7, one zero '
                'rate, non-positive ratio are rejected; env overrides are applied only inside their documented ranges. '
-               'Sticky error: one API call from any state with an error pending makes no engine call, no input-fn call and no output.')
+               'Sticky error: one API call from any state with an error pending makes no engine call, no input-fn call and no output; an error raised by an engine (or an allocation) during a deferred or repeated initialisation is returned and stays recorded in the surviving object.')
 ASSUMPTIONS = ['NaN spec fields are outside the claim (the property quantifies over finite rates; NaN precision/phase pass the range comparisons of cr.c as written)']
 
 def obligations(tier):
@@ -12,6 +12,8 @@ def obligations(tier):
     for kind, orate in ((2, '1.0'), (3, '0.0'), (8, '-2.0')) if tier == 'quick' else [(k, o) for k in (2, 3, 8, 0, 1) for o in ('1.0', '0.0', '-2.0', '0.5')]:
         obls.append(create_obl(0, kind, 2, orate=orate))
     obls.append(create_obl(3, timeout=300))
+    # an error raised by the engines during a deferred (soxr_set_io_ratio) or repeated (soxr_clear) initialisation is reported AND stays recorded
+    obls += [create_obl(1, 2, 2, orate='0.0'), create_obl(1, 8, 1, orate='0.0')]
     obls += [plan_obl(0), plan_obl(2), plan_obl(1, 0), plan_obl(1)]
     for op in (0, 2):
         for (it, ot) in [(0, 1), (6, 3)]:
